@@ -66,3 +66,17 @@ reg("C19",
     "Values, non-negativity and normalisation (partial sums plus analytic tails) of the four factories are compared "
     "with the exact formulas for generated parameters and degrees (Python and numpy ints). " + EXPL,
     "tolerance derived from the library's own series stopping rule (first term < 1e-6)")
+
+reg("C13",
+    "property-based testing (Hypothesis): reference extractor over Fractions written from the definition; repeated-call histories on one extractor",
+    "Every matrix entry (1e-12), symmetry, total, excess keys and repeatability over 1..4 successive get_ejks() calls "
+    "are compared with the definition on clean motif networks and freely annotated simple graphs; overall-degree "
+    "variant likewise. " + EXPL,
+    "simple graphs only")
+
+reg("C14",
+    "property-based testing (Hypothesis): Fraction reference formulas, inversion round trip, brute-force row sums, cross-module identity on clean networks",
+    "Forward excess distributions, means, list/dict converters, inversion (P/(1-P(0))), row sums of generated "
+    "matrices and the network cross-module identity are compared with exact references (1e-9) for arbitrary "
+    "topology name lists. " + EXPL,
+    "inversion required only under the statement's precondition; cross-module identity on clique/cycle motifs")
